@@ -10,7 +10,9 @@
    samples and a cube may have a single layer (the code after the fix: commits for the findings
    C03-one-element-array-field and C03-one-layer-cube).
    [chain_multiply ps w] - Wavefront * P1 * ... * Pk. *)
-From LV Require Import Model.Segment Proofs.FieldP Proofs.DftP Proofs.PlaneP Proofs.PropagateP Proofs.SegmentP Lib.Instances.
+From LV Require Import Model.Segment Model.SegmentFft Proofs.FieldP Proofs.DftP Proofs.PlaneP Proofs.PropagateP Proofs.SegmentP
+  Proofs.SegmentFftP Lib.Instances.
+From LV Require Proofs.FftP.
 
 (* (a) the transform is linear ... *)
 Theorem C03_transform_additive :
@@ -184,6 +186,83 @@ Theorem C03_tilt_aware_call_without_tilt :
 Proof. exact chain_propagate_tilted_untilted. Qed.
 Print Assumptions C03_tilt_aware_call_without_tilt.
 
+(* (h) the same through the FFT propagator (lentil.propagate_fft, model Model/Fft.v of property C09; [N0 x N1] is the FFT
+   grid, the same for both descriptions because it is derived from pixel scales, focal length and wavelength).
+   Vocabulary of Proofs/FftP.v: [accepted_shape N0 N1 shape os] - no shape given, or a positive one with
+   shape * oversample inside the grid; [scratch_ok N0 N1 w scratch] - a scratch buffer at least as large as the grid, or
+   none and every field inside the wavefront's (positive) shape; [shape_out] - the grid, or shape * oversample.
+   Two untilted wavefronts with equal attributes whose fields add up to the same plane: same result, sample by sample,
+   whatever scratch buffers are passed *)
+Theorem C03_fft_depends_on_the_sum_only :
+  forall (S : Scalar), is_ring S -> kernel_laws S -> (forall z : Z, @ke S (zq z) = k1) ->
+  forall (sq : Qc -> S) (N0 N1 : Z) (w1 w2 : Fft.wavefront S) (du : Qc * Qc) (shape : option (Z * Z)) (os : Z)
+         (sc1 sc2 : option (arr S)) (pt : Fft.ptype),
+  0 < N0 -> 0 < N1 -> 0 < os -> Fft.has_tilt w1 = false -> Fft.has_tilt w2 = false ->
+  Fft.wpt w1 = Fft.wpt w2 -> Fft.propagate_ptype (Fft.wpt w1) = Ok pt ->
+  Fft.wpix w1 = Fft.wpix w2 -> Fft.wz w1 = Fft.wz w2 ->
+  (forall f, In f (Fft.wdata w1) -> fsized f) -> (forall f, In f (Fft.wdata w2) -> fsized f) ->
+  FftP.accepted_shape N0 N1 shape os -> FftP.scratch_ok S N0 N1 w1 sc1 -> FftP.scratch_ok S N0 N1 w2 sc2 ->
+  (forall r c, embed_sum (Fft.wdata w1) r c = embed_sum (Fft.wdata w2) r c) ->
+  exists o1 s1 o2 s2 F1 F2,
+    Fft.propagate_fft_N sq N0 N1 w1 du shape os sc1 = Ok (o1, s1) /\
+    Fft.propagate_fft_N sq N0 N1 w2 du shape os sc2 = Ok (o2, s2) /\
+    Fft.wshape o1 = Fft.wshape o2 /\ Fft.wlam o1 = Fft.wlam o2 /\ Fft.wpt o1 = Fft.wpt o2 /\ Fft.wz o1 = Fft.wz o2 /\
+    Fft.wfield o1 = Ok F1 /\ Fft.wfield o2 = Ok F2 /\ nr F1 = nr F2 /\ nc F1 = nc F2 /\
+    nr F1 = fst (FftP.shape_out N0 N1 shape os) /\ nc F1 = snd (FftP.shape_out N0 N1 shape os) /\
+    forall i j, 0 <= i < nr F1 -> 0 <= j < nc F1 -> get F1 i j = get F2 i j.
+Proof. exact fft_same_plane. Qed.
+Print Assumptions C03_fft_depends_on_the_sum_only.
+
+(* chains of segmented pupils against the chains of their monolithic descriptions, through propagate_fft:
+   both calls succeed and return the same field *)
+Theorem C03_fft_segmented_eq_monolithic :
+  forall (S : Scalar), is_ring S -> kernel_laws S -> (forall z : Z, @ke S (zq z) = k1) ->
+  forall (sq : Qc -> S) (segs monos : list (plane S)) (w ws wm : pwf S) (N0 N1 : Z) (du : Qc * Qc)
+         (shape : option (Z * Z)) (os : Z) (sc1 sc2 : option (arr S)) (n m : Z) (px : Qc * Qc) (z : Qc),
+  Forall2 (fun Ps Pm => exists n0 m0, partition_of Ps Pm n0 m0) segs monos -> segs <> [] ->
+  (forall f, In f (pw_data w) -> fwell f) ->
+  chain_multiply segs w = Ok ws -> chain_multiply monos w = Ok wm ->
+  pw_shape ws = Some (n, m) -> pw_pix ws = Some px -> pw_focal ws = FVal z ->
+  (forall f, In f (pw_data ws) -> ftilt f = []) -> (forall f, In f (pw_data wm) -> ftilt f = []) ->
+  0 < N0 -> 0 < N1 -> 0 < os -> FftP.accepted_shape N0 N1 shape os ->
+  FftP.scratch_ok S N0 N1 (Fft.mkWf (pw_data ws) (n, m) (pw_lam ws) px z Fft.PPupil) sc1 ->
+  FftP.scratch_ok S N0 N1 (Fft.mkWf (pw_data wm) (n, m) (pw_lam wm) px z Fft.PPupil) sc2 ->
+  exists o1 s1 o2 s2 F1 F2,
+    chain_propagate_fft sq segs w N0 N1 du shape os sc1 = Ok (o1, s1) /\
+    chain_propagate_fft sq monos w N0 N1 du shape os sc2 = Ok (o2, s2) /\
+    Fft.wshape o1 = Fft.wshape o2 /\ Fft.wlam o1 = Fft.wlam o2 /\ Fft.wpt o1 = Fft.wpt o2 /\ Fft.wz o1 = Fft.wz o2 /\
+    Fft.wfield o1 = Ok F1 /\ Fft.wfield o2 = Ok F2 /\ nr F1 = nr F2 /\ nc F1 = nc F2 /\
+    nr F1 = fst (FftP.shape_out N0 N1 shape os) /\ nc F1 = snd (FftP.shape_out N0 N1 shape os) /\
+    forall i j, 0 <= i < nr F1 -> 0 <= j < nc F1 -> get F1 i j = get F2 i j.
+Proof. exact fft_segmented_eq_monolithic. Qed.
+Print Assumptions C03_fft_segmented_eq_monolithic.
+
+(* (i) helper.slice_offset(slice, shape), the offset a cropped sub-array is carried with: Ellipsis and (..., :) mean
+   the whole array (offset (0, 0)); any other tuple holding Ellipsis is refused with ValueError; a pair of slices gives
+   centre of the box minus centre of the parent (floor conventions) *)
+Theorem C03_slice_offset_outcome :
+  forall (s : slice_arg) (sr sc : Z),
+  match slice_offset_any s sr sc with
+  | Ok o => ((s = SlEllipsis \/ s = SlEllFull) /\ o = (0, 0)) \/
+            exists r0 r1 c0 c1, s = SlPair r0 r1 c0 c1 /\
+              o = (r0 + (r1 - r0) / 2 - sr / 2, c0 + (c1 - c0) / 2 - sc / 2)
+  | Err e => e = ValueError /\ s = SlEllOther
+  end.
+Proof. exact slice_offset_any_outcome. Qed.
+Print Assumptions C03_slice_offset_outcome.
+
+(* ... and that offset is the right one: the crop g[r0:r1, c0:c1] carried as a Field at slice_offset of its slice pair
+   occupies exactly the samples of the box, with the values the whole array (offset (0, 0)) has there *)
+Theorem C03_slice_offset_places_crop :
+  forall (S : Scalar), is_ring S -> forall (g : arr S) (r0 r1 c0 c1 : Z) (o : Z * Z) (tl : list tilt) (r c : Z),
+  slice_offset_any (SlPair r0 r1 c0 c1) (nr g) (nc g) = Ok o ->
+  0 <= r0 -> r0 <= r1 -> r1 <= nr g -> 0 <= c0 -> c0 <= c1 -> c1 <= nc g ->
+  embed (mkField (D2 (force (aslice g r0 r1 c0 c1))) (fst o) (snd o) tl) r c
+  = if (r0 <=? r + nr g / 2) && (r + nr g / 2 <? r1) && (c0 <=? c + nc g / 2) && (c + nc g / 2 <? c1)
+    then embed (mkField (D2 (force g)) 0 0 tl) r c else k0.
+Proof. exact (fun S R => slice_offset_places_crop S). Qed.
+Print Assumptions C03_slice_offset_places_crop.
+
 (* non-vacuity: a 3x4 aperture over Z split into two segments with overlapping bounding boxes, against its
    monolithic description.  Both constructors succeed, the slices are as stated, both multiplications succeed,
    the segmented result holds two overlapping fields, the monolithic one a single field, and they render to the
@@ -234,4 +313,21 @@ Example C03_single_sample_segment_and_one_layer_cube :
   fieldOf [mkEx (M3 3 3 [exP1; exP2]); mkEx (M3 3 3 [exP1; exP2])] = fieldOf [mkEx (M2 exPG); mkEx (M2 exPG)] /\
   fieldOf [mkEx (M3 3 3 [exPG])] = fieldOf [mkEx (M2 exPG)] /\
   fieldOf [mkEx (M2 exPG)] = Some [2; 5; 0; 3; 6; 0; 0; 0; 10].
+Proof. vm_compute. repeat split; reflexivity. Qed.
+
+(* non-vacuity of (h) and (i): the 3x4 aperture above through the FFT model on a 6x8 grid (over Z the kernel is trivial:
+   every output sample is the total of the plane), segmented and monolithic, with and without a scratch buffer; and
+   slice_offset on its four kinds of argument *)
+Definition fftOf (rp : result (plane ZS)) (sc : option (arr ZS)) : option (list ZS) :=
+  match rp with
+  | Ok P => match chain_propagate_fft (S := ZS) (fun _ => 1) [P] (pwf_init (S := ZS) 1%Qc PixNone None []) 6 8
+                                      (1%Qc, 1%Qc) (Some (2, 3)) 2 sc with
+            | Ok (o, _) => match Fft.wfield o with Ok a => Some (tabulate a) | Err _ => None end
+            | Err _ => None end
+  | Err _ => None end.
+Example C03_fft_and_slice_offset_nonvacuous :
+  fftOf exSeg None = fftOf exMono None /\ fftOf exSeg (Some (@mkArr ZS 7 9 (fun i j => i + j))) = fftOf exMono None /\
+  fftOf exMono None = Some [53; 53; 53; 53; 53; 53; 53; 53; 53; 53; 53; 53; 53; 53; 53; 53; 53; 53; 53; 53; 53; 53; 53; 53] /\
+  slice_offset_any SlEllipsis 5 4 = Ok (0, 0) /\ slice_offset_any SlEllFull 5 4 = Ok (0, 0) /\
+  slice_offset_any SlEllOther 5 4 = Err ValueError /\ slice_offset_any (SlPair 3 5 0 1) 5 4 = Ok (2, -2).
 Proof. vm_compute. repeat split; reflexivity. Qed.
